@@ -17,7 +17,7 @@ def rules_for(prop):
 
     def per_subscription(*rels):
         """SUB-1 / SUB-2 / SUB-3 / GEN-1 / GEN-3 on the modules a property is about (None: every module)"""
-        rules = [sub.rule_sub1, sub.rule_sub2, sub.rule_sub3, sub.rule_gen1, sub.rule_gen3, sub.rule_cfg1, sub.rule_arg1, sub.rule_cache1, sub.rule_eq3]
+        rules = [sub.rule_sub1, sub.rule_sub2, sub.rule_sub3, sub.rule_gen1, sub.rule_gen3, sub.rule_cfg1, sub.rule_arg1, sub.rule_cache1, sub.rule_eq3, sub.rule_dq1]
         return rules if not rels else [scoped(x, rels) for x in rules]
     def error_paths(rule):
         """the tree-wide protocol rule, keeping the findings about the paths an OnErrorMux takes (C13: an unhandled mux error reaches the
@@ -35,7 +35,7 @@ def rules_for(prop):
     def plumbing(*rels, user_results=True):
         """SUB-3 / GEN-3 / CFG-1 on the modules a property is about"""
         return [scoped(sub.rule_sub3, rels), scoped(sub.rule_gen3, rels), scoped(sub.rule_cfg1 if user_results else sub.rule_cfg1_timing, rels),
-                scoped(sub.rule_arg1, rels), scoped(sub.rule_gen1, rels), scoped(sub.rule_eq3, rels)] + ([scoped(sub.rule_cache1, rels)] if user_results else [])
+                scoped(sub.rule_arg1, rels), scoped(sub.rule_gen1, rels), scoped(sub.rule_eq3, rels), scoped(sub.rule_dq1, rels)] + ([scoped(sub.rule_cache1, rels)] if user_results else [])
     SEQ = ("rxsci/operators/first.py", "rxsci/operators/last.py", "rxsci/operators/take.py", "rxsci/operators/distinct.py",
            "rxsci/operators/distinct_until_changed.py", "rxsci/data/lag.py", "rxsci/data/pad.py", "rxsci/operators/start_with.py",
            "rxsci/data/batch.py", "rxsci/data/sort.py", "rxsci/data/to_deque.py", "rxsci/data/to_list.py", "rxsci/operators/scan.py")
@@ -58,10 +58,10 @@ def rules_for(prop):
                                                        "rxsci/operators/first.py", "rxsci/operators/take.py", "rxsci/operators/last.py",
                                                        "rxsci/data/lag.py", "rxsci/data/pad.py", "rxsci/operators/start_with.py",
                                                        "rxsci/data/batch.py"), min_instances=1), ms.ms_for_types("int", "bool", "obj", maps=True), ms.rule_tp1, grp.rule_eq2],
-        "C11": [io.rule_framing, pr.rule_pr1, pr.rule_pr2, pr.rule_pr4, grp.rule_pr3, seq.rule_dp6, st.rule_st1, tm.rule_tm123, tm.rule_tm4, io.rule_fr3_prompt, io.rule_codec, seq.rule_opt1_time_split, grp.rule_dur1, seq.rule_fw2, tm.rule_tm6, grp.rule_dp4, only_constructs(ag.rule_ag1, ("rxsci/operators/flat_map.py",)), only_constructs(ag.rule_ag2, ("rxsci/operators/flat_map.py",)), ag.rule_ag8,
+        "C11": [io.rule_framing, pr.rule_pr1, pr.rule_pr2, pr.rule_pr4, grp.rule_pr3, seq.rule_dp6, st.rule_st1, tm.rule_tm123, tm.rule_tm4, io.rule_fr3_prompt, io.rule_codec, seq.rule_opt1_time_split, grp.rule_dur1, seq.rule_fw2, tm.rule_tm6, grp.rule_dp4, scan.rule_sd1, only_constructs(ag.rule_ag1, ("rxsci/operators/flat_map.py",)), only_constructs(ag.rule_ag2, ("rxsci/operators/flat_map.py",)), ag.rule_ag8,
                 *plumbing(*("rxsci/operators/scan.py", "rxsci/data/roll.py", "rxsci/data/split.py", "rxsci/data/time_split.py", "rxsci/operators/group_by.py",
                                        "rxsci/operators/tee_map.py", "rxsci/data/batch.py", "rxsci/operators/multiplex.py"), user_results=False)],
-        "C12": [ms.ms_for_types("int", "float", "bool", "obj", maps=True), ms.rule_tp1, scan.rule_sd1, scan.rule_sc1, grp.rule_eq2, num.rule_nm1, ag.rule_ag4, named(scan.rule_pu1, files=("rxsci/math/sum.py", "rxsci/math/mean.py", "rxsci/math/min.py", "rxsci/math/max.py",
+        "C12": [scoped(sub.rule_dq1, ("rxsci/math/sum.py", "rxsci/math/mean.py", "rxsci/math/min.py", "rxsci/math/max.py", "rxsci/math/variance.py", "rxsci/math/stddev.py", "rxsci/math/formal/variance.py", "rxsci/math/formal/stddev.py", "rxsci/math/formal/__init__.py", "rxsci/operators/scan.py")), ms.ms_for_types("int", "float", "bool", "obj", maps=True), ms.rule_tp1, scan.rule_sd1, scan.rule_sc1, grp.rule_eq2, num.rule_nm1, ag.rule_ag4, named(scan.rule_pu1, files=("rxsci/math/sum.py", "rxsci/math/mean.py", "rxsci/math/min.py", "rxsci/math/max.py",
                                                           "rxsci/math/variance.py", "rxsci/math/stddev.py", "rxsci/math/formal/variance.py",
                                                           "rxsci/math/formal/stddev.py", "rxsci/math/formal/__init__.py"))],
         "C13": er.RULES + [scoped(sub.rule_sub1, ("rxsci/error/ignore.py", "rxsci/error/map.py", "rxsci/error/router.py", "rxsci/operators/map.py", "rxsci/operators/filter.py", "rxsci/operators/scan.py")), mx.rule_mx9, mx.rule_wc2, st.rule_st8, mx.rule_ev1, error_paths(mx.rule_mx_flat), scan.rule_sc1, *plumbing(*("rxsci/error/ignore.py", "rxsci/error/map.py", "rxsci/error/router.py", "rxsci/operators/map.py",
@@ -161,7 +161,7 @@ EXPLANATION = {
 _PLUMB = (" Also, on the modules of this property: SUB-1 (where listed) per-subscription state -- closure variables rebound by a handler or by any other function of the subscription, the state topology a probe carries, the disposable a subscribe function returns -- is created by the function that makes the subscription; SUB-3 every subscription an operator makes passes a handler for on_next, on_error and "
           "on_completed (or the whole observer) and subscribes its source at most once on a path; GEN-3 every function that builds an "
           "operator's observable returns a value on every path; CFG-1 a factory parameter the handlers test is not recomputed in the factory from "
-          "anything but itself (otherwise the run ends as ANALYSIS-ERROR: the per-configuration reading of the handlers would not describe them), and a user function is never wrapped in a cache; ARG-1 an operator factory does not mutate the objects it is given (a list of stages, of sources), directly or through a local alias, nor replace a sequence argument by set / sorted / reversed / dict.fromkeys of it; GEN-1 a one-shot iterator (generator expression, map / zip / iter, itertools objects) built by a factory is not consumed per subscription or per key, in the factory's own inner functions or in those of another factory it is handed to; CACHE-1 no function applied per item is memoised by == / hash; EQ-3 a parameter is not compared with True / False by == or `in` (0 == False). Parameters the pinned tree's functions did not have (rxsa/known_params.py) and that default to None / True / False are analysed at their default only.")
+          "anything but itself (otherwise the run ends as ANALYSIS-ERROR: the per-configuration reading of the handlers would not describe them), and a user function is never wrapped in a cache; ARG-1 an operator factory does not mutate the objects it is given (a list of stages, of sources), directly or through a local alias, nor replace a sequence argument by set / sorted / reversed / dict.fromkeys of it; GEN-1 a one-shot iterator (generator expression, map / zip / iter, itertools objects) built by a factory is not consumed per subscription or per key, in the factory's own inner functions or in those of another factory it is handed to; CACHE-1 no function applied per item, and no operator factory, is memoised by functools; EQ-3 a parameter is not compared with True / False by == or `in` (0 == False); DQ-1 no bounded deque (maxlen) holds items or state. Parameters the pinned tree's functions did not have (rxsa/known_params.py) and that default to None / True / False are analysed at their default only.")
 _EQ2 = " EQ-2 a marker object (STATE_NOTSET, STATE_CLEARED) is told apart by identity, never by == (which would run the __eq__ of the user value in the slot)."
 _ADDED = {
     "C01": " MX-9 an operator that tells mux events apart and sends them on builds a MuxObservable (a plain Observable of event tuples would send its successor down its plain arm); MS-6 the store layers forward state, key and value unchanged; TP-1 (state ids); FW-1 for group_by." + _EQ2 + _PLUMB,
